@@ -110,5 +110,30 @@ fn main() {
                 .shrink_iters(800),
         );
     }
+    {
+        // more than 1000 pages (25 entries each) in one residency bucket
+        let _gag = StderrGag::new();
+        ck.run(
+            Section::enumerate(
+                "residency-huge-bucket",
+                "24,999 / 25,000 / 25,001 / 25,026 / 30,000 sequence keys marked resident in one bucket (a page holds 25 entries: around and above 1000 pages), then a few keys of another sequence, then save + load, then 300 of them deleted through the batch path: every lookup, the enumeration and the counts agree with the model after every step".to_string(),
+                || {
+                    Box::new([24_999u16, 25_000, 25_001, 25_026, 30_000].into_iter().map(|n| residency::ResCase {
+                        hot: 3,
+                        pool: vec![residency::RKeySpec { head: [1, 2, 3, 4, 5, 6, 7, 8], mid: [9; 7], hot: false, bucket: 1, hn: 0 }],
+                        ops: vec![
+                            residency::ROp::Many { n, base: 0, mark: residency::Mark::Resident },
+                            residency::ROp::Many { n: 3, base: 1, mark: residency::Mark::Resident },
+                            residency::ROp::Reload,
+                            residency::ROp::DeleteMany { n: 300, base: 0, batch: true, filler_seed: 7 },
+                            residency::ROp::Reload,
+                        ],
+                    }))
+                },
+                |c: &residency::ResCase| residency::check(c),
+            )
+            .shards(5),
+        );
+    }
     ck.finish();
 }
